@@ -112,6 +112,24 @@ def reentrantCalls (table : List Fn) : List (String × String) :=
     else (f.calls.filter fun c => c.2 && (table[c.1]?.map (·.mode != .n)).getD false).map
       fun c => (f.name, (table[c.1]?.map (·.name)).getD "?")
 
+/-- one round of: function `i` may be entered with `adminMutex` already held if some function other than
+    `init` calls it from under its own lock, or calls it at all while itself possibly entered with the lock -/
+def lockedEntryStep (table : List Fn) (l : List Bool) : List Bool :=
+  (List.range table.length).map fun i =>
+    (l[i]?.getD false) || (table.zip l).any fun (g, lg) =>
+      g.name != "init" && g.calls.any fun c => c.1 == i && (c.2 || lg)
+
+/-- the functions that may be entered with `adminMutex` held (least fixed point: `length` rounds suffice) -/
+def lockedEntry (table : List Fn) : List Bool :=
+  (List.range table.length).foldl (fun l _ => lockedEntryStep table l) (table.map fun _ => false)
+
+/-- `reentrantCalls` through any depth and through the SCEP authority's call-backs: a lock-taking method
+    called from under the caller's own lock, or from a function that may itself run with the lock held -/
+def reentrantDeep (table : List Fn) : List (String × String) :=
+  (table.zip (lockedEntry table)).flatMap fun (f, l) =>
+    (f.calls.filter fun c => (c.2 || l) && (table[c.1]?.map (·.mode != .n)).getD false).map
+      fun c => (f.name, (table[c.1]?.map (·.name)).getD "?")
+
 /-- every (function, field, isWrite) at which a guarded field is touched without sufficient lock -/
 def unsafeSites (table : List Fn) : List (String × Field × Bool) :=
   ((table.zip (held table)).flatMap fun (f, h) =>
